@@ -10,6 +10,7 @@
   run cannot tell the scanned index from the index of the re-keyed tiling.
 -/
 import Bita.Proofs.CloneWrites
+import Bita.Proofs.CloneLength
 import Bita.Proofs.PlannerFilter
 
 namespace Bita.Proofs
@@ -382,8 +383,7 @@ theorem clone_complete_nojunk (H : Bytes → Bytes) (hH : ∀ x, (H x).length = 
     (hinit : tryInit H features (honestReadAt archive) = .ok a) (hd : Describes H a src cks)
     (hs : Stored H decomp a archive)
     (hpin : ∀ pin, opts.headerPin = some pin → pin = a.headerChecksum)
-    (hdev : opts.blockDev = true → src.length ≤ prior.length)
-    (hbv : opts.blockDev = true → opts.verifyOutput = false) :
+    (hdev : opts.blockDev = true → src.length ≤ prior.length) :
     let r := Clone.run H decomp features (honestReadAt archive) (honestReadChunks archive) opts prior seeds
     (r.result = .ok ∧ setLen r.output src.length = src ∧ (opts.blockDev = false → r.output = src)) ∨
       Collision H a.hashLength cks := by
@@ -418,12 +418,10 @@ theorem clone_complete_nojunk (H : Bytes → Bytes) (hH : ∀ x, (H x).length = 
   obtain ⟨hr, ho⟩ := run_ok_intro H decomp features (honestReadAt archive) (honestReadChunks archive)
     opts prior seeds a hinit _ st1 _ P.hix (banner_no_panic a hd.valid) hpin' hdev' P.hst1 h3
     (by
-      intro hvo
-      have hb : opts.blockDev = false := by
-        cases hbd : opts.blockDev with
-        | false => rfl
-        | true => rw [hbv hbd] at hvo; cases hvo
-      rw [ho2 hb, hd.checksum]
+      intro _
+      rw [cloneHashed_correct opts a _ src hd.total ho1 (fun hb => Nat.le_trans (hdev hb)
+        (cloneStages_length_le H decomp (honestReadChunks archive) a opts prior seeds _ st1 P.hst1)),
+        hd.checksum]
       exact hashTruncate_of_le _ _ (Nat.le_refl _))
   rw [ho]
   exact ⟨hr, ho1, ho2⟩
